@@ -6,7 +6,7 @@ def errName : Err → String
   | .pmaxLength => "pmaxLength" | .pmaxLePmin => "pmaxLePmin" | .zeroSamples => "zeroSamples"
   | .drawsShape => "drawsShape" | .cstRange => "cstRange" | .hasNan => "hasNan"
   | .percentileRange => "percentileRange" | .boxCoverage => "boxCoverage"
-  | .whiskersCoverage => "whiskersCoverage" | .oneCategory => "oneCategory" | .empty => "empty"
+  | .whiskersCoverage => "whiskersCoverage" | .oneCategory => "oneCategory" | .empty => "empty" | .ndim => "ndim"
 
 /-- entries the code masks with `isnan | isinf` / `isfinite` -/
 def optFinite (x : Float) : Option Float := if x.isFinite then some x else none
@@ -72,6 +72,13 @@ def handle (toks : List String) : String :=
     match o.toInt?, parseFloatMat? d with
     | some o, some d => fmtNatList (paretoFront (Float.ofInt o) (d.map fun r => r.map optNan))
     | _, _ => "bad-op"
+  | ["paretond", nd, o, d] =>
+    match nd.toNat?, o.toInt?, parseFloatMat? d with
+    | some nd, some o, some d =>
+      match paretoFrontNd nd (Float.ofInt o) (d.map fun r => r.map optNan) with
+      | .ok l => "ok " ++ fmtNatList l
+      | .error e => "err " ++ errName e
+    | _, _, _ => "bad-op"
   | ["paretoneg", o, d] =>
     -- the right-hand side of `paretoFront_orientation_neg`: orientation `o` on the negated data
     match o.toInt?, parseFloatMat? d with
